@@ -108,6 +108,7 @@ type AggOpts struct {
 	WallS     float64
 	Record    string // finding id: write unlisted failures matching RecordRe into its cases file (maintainer command)
 	RecordRe  string
+	NConfigs  int
 	ExtraCov  map[string]interface{}
 	BuildInfo map[string]interface{}
 }
@@ -129,6 +130,7 @@ func Aggregate(o AggOpts) int {
 	tot.FailByKind = map[string]int64{}
 	tot.Bound = map[string]interface{}{}
 	n := 0
+	perCfg := map[string]int{}
 	for _, fn := range files {
 		b, err := os.ReadFile(fn)
 		if err != nil {
@@ -141,6 +143,7 @@ func Aggregate(o AggOpts) int {
 			return 2
 		}
 		n = sr.N
+		perCfg[sr.Config]++
 		if err := ReadHashes(sr.HashFile, cases, states); err != nil {
 			fmt.Println("ERROR:", err)
 			return 2
@@ -183,8 +186,14 @@ func Aggregate(o AggOpts) int {
 			}
 		}
 	}
-	if len(files) != n {
-		fmt.Printf("ERROR: %d shard results, expected %d (a worker died)\n", len(files), n)
+	for cfg, c := range perCfg {
+		if c != n {
+			fmt.Printf("ERROR: %d shard results for configuration %q, expected %d (a worker died)\n", c, cfg, n)
+			return 2
+		}
+	}
+	if o.NConfigs > 0 && len(perCfg) != o.NConfigs {
+		fmt.Printf("ERROR: results for %d build configurations, expected %d\n", len(perCfg), o.NConfigs)
 		return 2
 	}
 	if len(tot.Samples) > 12 {
@@ -278,7 +287,7 @@ func Aggregate(o AggOpts) int {
 			f := unlisted[i]
 			p := filepath.Join(o.VerifDir, "replays", fmt.Sprintf("%s-%s.json", f.Prop, f.Key()))
 			rb, _ := json.MarshalIndent(map[string]interface{}{
-				"property": f.Prop, "case_id": f.Case, "kind": f.Kind, "digest": f.Digest, "detail": f.Detail, "tier": o.Tier,
+				"property": f.Prop, "case_id": f.Case, "config": cfgOf(f.Case), "kind": f.Kind, "digest": f.Digest, "detail": f.Detail, "tier": o.Tier,
 				"replay_cmd": fmt.Sprintf("./check --replay %s", p),
 				"how":        "the case id is the canonical, complete description of the inputs; ./check --replay re-executes exactly this case against /repo and prints model vs implementation",
 			}, "", " ")
@@ -332,6 +341,7 @@ func Aggregate(o AggOpts) int {
 		"unlisted_violations":           len(unlisted),
 		"notes":                         tot.Notes,
 		"shards":                        n,
+		"build_configurations":          cfgList(perCfg),
 	}
 	for k, v := range o.ExtraCov {
 		cov[k] = v
@@ -361,4 +371,23 @@ func kindCount(fs []Failure) map[string]int {
 		m[f.Kind]++
 	}
 	return m
+}
+
+func cfgOf(caseID string) string {
+	if i := strings.LastIndex(caseID, "|cfg="); i >= 0 {
+		return caseID[i+5:]
+	}
+	return ""
+}
+
+func cfgList(m map[string]int) []string {
+	var out []string
+	for k := range m {
+		if k == "" {
+			k = "default"
+		}
+		out = append(out, k)
+	}
+	sort.Strings(out)
+	return out
 }
